@@ -1,4 +1,5 @@
 import GixModel.Lemmas.C53File
+import GixModel.Lemmas.C53Iff
 /-
 C53 — Mailmap resolution agrees with git.  PROPERTY THEOREMS ONLY.
 
@@ -8,7 +9,7 @@ Entries are `gix_mailmap::Entry` values = git's `add_mapping` arguments after it
 -/
 namespace GixModel.Props.C53
 open GixModel GixModel.C53
-open GixModel.Spec.C53 (Entry build mapUser mapUserNormalized spellingExact checkMailmap)
+open GixModel.Spec.C53 (Entry build mapUser mapUserNormalized spellingExact checkMailmap emailKept)
 
 /-- The exact behaviour, for ALL entry lists whose keys (old emails, old names) are valid UTF-8
 and ALL identities (any bytes): `Snapshot::new` does not panic and `Snapshot::resolve` returns
@@ -41,6 +42,51 @@ theorem resolve_eq_git_partial (es : List Entry) (hes : ∀ e ∈ es, entryOk e 
     simp only [this]
 
 example : spellingExact (build [⟨some [80], none, none, [97, 64, 120]⟩]) [97, 64, 120] = true := by decide
+
+/-- The normalisation is invisible EXACTLY when `emailKept` holds (no hypothesis on the map). -/
+theorem normalized_eq_iff (m : Spec.C53.Map) (name email : Bytes) :
+    mapUserNormalized m name email = mapUser m name email ↔ emailKept m name email = true := by
+  unfold mapUserNormalized mapUser emailKept
+  cases h : Spec.C53.slLookup m email with
+  | none => simp
+  | some kv =>
+    obtain ⟨key, me⟩ := kv
+    simp only
+    cases h2 : Spec.C53.slLookup me.namemap name with
+    | none =>
+      simp only
+      cases he : me.email with
+      | some x => simp
+      | none => simp only [Option.getD_none, Prod.mk.injEq, true_and, Option.isSome_none, Bool.false_or, beq_iff_eq]
+    | some sub =>
+      obtain ⟨k2, info⟩ := sub
+      simp only
+      cases he : info.email with
+      | some x => simp
+      | none => simp only [Option.getD_none, Prod.mk.injEq, true_and, Option.isSome_none, Bool.false_or, beq_iff_eq]
+
+/-- `resolve_eq_git` as a full characterisation (iff): for ALL entry lists with UTF-8 keys and ALL
+identities, gitoxide's resolution equals git's EXACTLY when `emailKept` holds — i.e. the single way the
+two differ on such mailmaps is the documented email-case normalisation, and it shows exactly when the
+applicable mapping assigns no email and the address is spelled differently from the stored key. -/
+theorem resolve_eq_git_iff (es : List Entry) (hes : ∀ e ∈ es, entryOk e = true) (name email : Bytes) :
+    ∃ s, snapshot es = some s ∧
+      (resolve s name email = mapUser (build es) name email ↔ emailKept (build es) name email = true) := by
+  obtain ⟨s, hs, hr⟩ := resolve_eq_git_normalized es hes name email
+  exact ⟨s, hs, by rw [hr]; exact normalized_eq_iff _ _ _⟩
+
+-- both sides of the iff occur: `Proper <alex@x>` and "n <Alex@x>" differ, "n <alex@x>" agree
+example : emailKept (build [⟨some [80], none, none, [97, 64, 120]⟩]) [110] [65, 64, 120] = false ∧
+    emailKept (build [⟨some [80], none, none, [97, 64, 120]⟩]) [110] [97, 64, 120] = true := by decide
+
+/-- Whole files, without any condition on the lines: what `Snapshot::from_bytes(file).resolve` returns is
+git's `map_user` with the normalisation, applied to the mappings gitoxide's own parser takes from the file
+(`fileEntries`, related to git's reader line by line by `parse_eq_git`). -/
+theorem file_resolution_exact (file name email : Bytes) (hes : ∀ e ∈ fileEntries file, entryOk e = true) :
+    resolveFile file name email = some (mapUserNormalized (build (fileEntries file)) name email) := by
+  obtain ⟨s, hs, hr⟩ := resolve_eq_git_normalized (fileEntries file) hes name email
+  unfold resolveFile
+  rw [hs, Option.map_some, hr]
 
 /-- The property as stated (no side condition). -/
 def C53_full : Prop :=
@@ -87,6 +133,32 @@ example : gixEff [74, 111, 101, 32, 82, 32, 60, 106, 111, 101, 64, 120, 62, 32, 
     some ⟨some [74, 111, 101, 32, 82], some [106, 111, 101, 64, 120], some [74, 111, 101], [98, 117, 103, 115, 64, 120]⟩ := by
   decide
 
+/-- `parse_eq_git_iff`: the exact domain of `parse_eq_git`. For every physical line without Unicode-only
+white space (`noExotic`; bytes 0x0b, 0x0c, 0x85 and the multi-byte spaces), gitoxide takes the same mapping as
+git **if and only if** the line is a comment or its trimmed text satisfies the decidable predicate `lineAgree`:
+no complete `<…>` pair; or `<>` first; or only blanks between the first brackets, no name before them and no
+second pair; or one pair that is either without a name (no effect on both sides) or followed by blanks only
+with an unpadded email; or two pairs, the second not blank inside, blanks only after it, and both emails
+unpadded. The three parse deviation classes (`trailing-text`, `email-surrounding-whitespace`,
+`empty-commit-email`) are exactly the complement. -/
+theorem parse_eq_git_iff (l term : Bytes) (hterm : isTerm term) (hx : noExotic l = true) :
+    gixEff l = gitEff (l ++ term) ↔ (l.head? == some 35 || lineAgree (gitTrim l)) = true :=
+  line_eq_iff l term hterm hx
+
+/-- the domain of `parse_eq_git` lies inside the exact one -/
+theorem lineOk_inside (l : Bytes) (hok : lineOk l = true) :
+    (l.head? == some 35 || lineAgree (gitTrim l)) = true :=
+  lineAgree_of_lineOk l hok
+
+-- both sides occur: the three deviation witnesses below are outside, `Joe R <joe@x> Joe <bugs@x>` is inside,
+-- and `<a@x> trailing` (an error for gitoxide, a mapping without effect for git) is inside but not `lineOk`
+example : lineAgree (gitTrim [80, 114, 111, 112, 101, 114, 32, 60, 99, 64, 120, 62, 32, 116, 114, 97, 105, 108, 105, 110, 103]) = false ∧
+    lineAgree (gitTrim [80, 114, 111, 112, 101, 114, 32, 60, 32, 99, 64, 120, 32, 62]) = false ∧
+    lineAgree (gitTrim [80, 114, 111, 112, 101, 114, 32, 60, 112, 64, 120, 62, 32, 60, 62]) = false ∧
+    lineAgree (gitTrim [74, 111, 101, 32, 82, 32, 60, 106, 111, 101, 64, 120, 62, 32, 74, 111, 101, 32, 60, 98, 117, 103, 115, 64, 120, 62]) = true ∧
+    lineAgree (gitTrim [60, 97, 64, 120, 62, 32, 116]) = true ∧ lineOk [60, 97, 64, 120, 62, 32, 116] = false := by
+  decide
+
 /-- known finding `deviation:trailing-text`: `Proper <c@x> trailing` is an error for gitoxide,
 git maps `c@x` to the name `Proper`. -/
 theorem parse_differs_trailing_text :
@@ -131,6 +203,32 @@ theorem file_eq_git_partial (file name email : Bytes) (hok : fileOk file = true)
   rw [hs, Option.map_some, hr]
   unfold checkMailmap Spec.C53.readMailmap
   rw [fileEntries_eq file hok, ← mapUser_filter_noop]
+
+/-- Whole files, exact: if every physical line is free of Unicode-only white space and inside the exact line
+domain (`fileAgree`, decidable; it contains `fileOk`) and the keys gitoxide parsed are valid UTF-8, then
+`Snapshot::from_bytes(file).resolve(name, email)` is what `git check-mailmap` prints **if and only if** the
+mapping that applies keeps the email's spelling (`emailKept`: no entry for the email, or the entry assigns a
+new email, or the looked-up email is spelled like the stored key). -/
+theorem file_eq_git_iff (file name email : Bytes) (hok : fileAgree file = true)
+    (hes : ∀ e ∈ fileEntries file, entryOk e = true) :
+    resolveFile file name email = some (checkMailmap file name email) ↔
+      emailKept (build (fileEntries file)) name email = true := by
+  rw [file_resolution_exact file name email hes]
+  have hc : checkMailmap file name email = mapUser (build (fileEntries file)) name email := by
+    unfold checkMailmap Spec.C53.readMailmap
+    rw [fileEntries_eq_wide file hok, ← mapUser_filter_noop]
+  rw [hc, ← normalized_eq_iff]
+  constructor
+  · intro h; injection h
+  · intro h; rw [h]
+
+/-- `fileOk` files are `fileAgree` files -/
+theorem fileOk_inside (file : Bytes) (hok : fileOk file = true) : fileAgree file = true :=
+  fileAgree_of_fileOk file hok
+
+-- `<a@x> trailing` / `Proper <c@x>`: not `fileOk`, but `fileAgree`
+example : fileOk [60, 97, 64, 120, 62, 32, 116, 10, 80, 32, 60, 99, 64, 120, 62, 10] = false ∧
+    fileAgree [60, 97, 64, 120, 62, 32, 116, 10, 80, 32, 60, 99, 64, 120, 62, 10] = true := by decide
 
 -- non-vacuity: comment, CRLF line, email-by-email, blank line, by-name mapping, `<email>` alone
 -- (error in gitoxide, no effect in git), a line without email, no final newline
